@@ -79,6 +79,13 @@ theorem step_bounded (s : St) (op : Op) (h : Bounded s) :
       · exact release_bounded s k h
       · exact ⟨h, rfl⟩
     · exact ⟨h, rfl⟩
+  | drop k how =>
+    simp only [step]
+    split
+    · split
+      · exact release_bounded s k h
+      · exact ⟨h, rfl⟩
+    · exact ⟨h, rfl⟩
   | redirect k k' =>
     simp only [step]
     split
@@ -182,6 +189,13 @@ theorem step_fifo (s : St) (op : Op) :
     · split <;> simp [startsOf]
     · simp [startsOf]
   | respond k =>
+    simp only [step, subOf, List.append_nil]
+    split
+    · split
+      · simp only [startsOf_append, startsOf_complete, List.append_nil]; exact release_fifo s k
+      · simp [startsOf]
+    · simp [startsOf]
+  | drop k how =>
     simp only [step, subOf, List.append_nil]
     split
     · split
